@@ -412,6 +412,9 @@ def run(check, an: Analysis):
                    % n_activity)
     # ---- L7 -----------------------------------------------------------------
     _check_optional_dates(check, an)
+    # ---- L6 (subscriptions of the other time conditions: Delay, ...) ---------
+    from . import c07
+    c07.check_immediacy(check, an, 'L6')
     # ---- L9 -----------------------------------------------------------------
     from . import _scope, c03
     c03._check_signal_lifecycles(
